@@ -228,7 +228,9 @@ func TestVerifC11(t *testing.T) {
 		sc.Link.UDPAddr = rng.chance(0.5)
 		sc.Clients = pick(rng, []int{2, 3, 5, 8, 16, 24})
 		if env.thorough() && q%10 == 0 {
-			sc.Clients = pick(rng, []int{64, 200, 400})
+			// (400 clients in one bubble needed 16 GB under the race detector and
+			// crashed its runtime when the machine ran short of memory)
+			sc.Clients = pick(rng, []int{48, 64, 128})
 		}
 		sc.Net = randomProfile(rng, rng.between(2000, 10000))
 		if sc.Net.Loss > 0.3 {
